@@ -25,7 +25,7 @@ CHECKS = {
    note="the reference handler is only as independent as the harness's reading of ISO 32000-1/-2; its primitives are self-tested against FIPS/RFC vectors; no third-party PDF tool exists in the sandbox to arbitrate"),
  "C07": dict(cat="model_checking", tech="explicit-state enumeration of all revision histories up to depth k (tree of history prefixes), two producers: independent reference writer (Prev-chained tables/streams, object streams) and IncrementalDocument replay; every node loaded by the real reader against the model 'newest definition wins'",
    text="All histories of <=2 (quick) / <=3 (thorough) revisions over 3 bases x 24/48 revision kinds x xref styles: the complete file of every history prefix is loaded and must yield, per object number, the newest definition; IncrementalDocument saves must keep the previous bytes as prefix, append only changed objects with a section whose Prev is the previous startxref (checked by the strict reader), leave the previous view untouched and reload to the model.",
-   note="trusts reference writer + strict reader; schedule pinned through hook H1 (Sorted) so the verdict cannot depend on thread timing; no freed objects / hybrid files"),
+   note="trusts reference writer + strict reader; schedule pinned through hook H1 (Sorted) so the verdict cannot depend on thread timing; no freed objects; hybrid-reference files only as a base revision (producer H)"),
  "C08": dict(cat="model_checking", tech="stateless exhaustive schedule enumeration on the real Reader through merge-order hook H1: all k! x z! completion orders of the object-stream blocks and zero-length list per file; differential against the sequential (no-default-features) build",
    text="For every generated file (up to 4/6 object-stream containers with duplicated object numbers, listed or unlisted in the cross-reference data, deferred-length and empty streams) every completion order of the parallel phase is forced through the hook and the canonical digest of the loaded document must be identical for all orders and equal to the sequential build's.",
    note="rests on the argument (DESIGN §3) that the two mutex-protected appends are the only schedule-visible actions; free-running loads on pools of 1..16 threads are supplementary sampling and labelled so"),
